@@ -50,6 +50,8 @@ COMPONENTS = {
     'b_var': z3.ArraySort(I, H), 'b_low': z3.ArraySort(I, I), 'b_high': z3.ArraySort(I, I),
     'b_term': z3.ArraySort(I, B), 'b_val': z3.ArraySort(I, B),
     'b_fl': z3.ArraySort(I, SetR), 'b_fh': z3.ArraySort(I, SetR),
+    # class-level dictionary BDDTerminalNode.Tnodes (a GLOBAL, keyed by the Boolean value): has-entry / node
+    'tn_has': z3.ArraySort(B, B), 'tn_ref': z3.ArraySort(B, I),
     'o_root': z3.ArraySort(I, I), 'o_ord': z3.ArraySort(I, I),      # OBDD objects: root node, ordering (an opaque value)
     'b_node': z3.ArraySort(I, B),      # type tag: the object is a BDD node (set by object.__new__(cls); False for dictionaries)
     # GHOST: the Boolean function a node denotes (assignment = set of true variables -> Bool); written only
@@ -126,7 +128,7 @@ def same_below(h0, h1, bound, comps=None, except_sets=None, named=False):
     out = []
     names = []
     for k in (comps or COMPONENTS.keys()):
-        if z3.eq(h0[k], h1[k]):
+        if z3.eq(h0[k], h1[k]) or COMPONENTS[k].domain() != I:       # (globals are not indexed by references)
             continue
         cond = z3.And(r >= 0, r < bound)
         if k == 'sets' and except_sets is not None:
